@@ -4,6 +4,8 @@ from vlib import common
 
 def key_fn(case, obs, verdict):
     f = case.split(" ")
+    if f[0] == "nest":
+        return "registry-overlap:%s:%s-%s-def%s:%s:%s" % ({"r": "nested", "g": "goroutine"}.get(f[1], f[1]), f[2], f[3], f[6], f[8], "creation-spec" if "overlapping" in verdict else verdict.split("(")[0][:40])
     if f[0] == "hookn":
         return "registry-hook-nested:%s:%s" % (f[1], "product-config")
     if f[0] == "hook":
@@ -21,6 +23,7 @@ def run(ctx):
         key_fn=key_fn,
         trusted=[
             "extraction: ExtrOcamlBasic only; OCaml driver ocaml/C18/main.ml (parses the harness's event lines into the model's datatypes) + ocaml/common/conv.ml",
+            "nest cases: overlapping creations of the same registered entry (the fillConf lets another Registry.New of the same name run to completion, inline or in a second goroutine it waits for); verdict nest_b, proved of the model (C18_overlapping_creations)",
             "hook cases: core/register + pluginconfig.AddHooks + config.Decode (mapstructure) over the default registry; the verdict compares each product with the specification-side expected_arg (proved equal to the model: C18_new_config, C18_plugin_factory_config)",
             "correspondence harness harness/cmd/hC18: real plugin.Registry (Register/New/NewFactory) with constructors, default functions and fillConf built by reflect.MakeFunc for every shape; events recorded by that user code, pointer identities canonicalised by first appearance",
             "modelled, not verified: Go reflection (reflect.Call/MakeFunc/New/Zero, type identity of func types) is represented by the branch conditions of Model/Registry.v; registration-time type expectations other than 'no default for a constructor without config' are outside the model",
